@@ -542,6 +542,23 @@ def _axioms_of(f):
                 ax.append(z3.And(z3.Not(smt.is_VNone(e)), z3.Not(smt.is_VAbsent(e)), z3.Not(smt.is_VRef(e)),
                                  z3.Not(smt.is_VBool(e)), z3.Not(smt.is_VInt(e)), z3.Not(smt.is_VStr(e)),
                                  z3.Not(smt.is_VFloat(e))))
+        elif nm == "node_items_ok":
+            # unfolding along the constructors of the stored value  [SPEC-BUILTIN]
+            t = args[0]
+            need_ground = True
+            while True:
+                tn = t.decl().name() if z3.is_app(t) else ""
+                if tn in ("dict_empty", "list_empty"):
+                    ax.append(bs.node_items_ok(t))
+                    break
+                if tn in ("dict_set", "list_append"):
+                    v = t.children()[-1]
+                    c0 = t.children()[0]
+                    item_ok = z3.Or(smt.is_VRef(v), z3.Not(z3.Or(is_mapping(v), is_sequence(v))))
+                    ax.append(bs.node_items_ok(t) == z3.And(bs.node_items_ok(c0), item_ok))
+                    t = c0
+                    continue
+                break
         elif nm == "truthy":
             t = args[0]
             need_ground = True
